@@ -149,7 +149,7 @@ fn main() {
                         let vj = &families[&(fam as u64)]["versions"][j as usize];
                         for s in vi.as_array().unwrap() {
                             let name = s["name"].as_str().unwrap();
-                            if !vj.as_array().unwrap().iter().any(|x| x["name"] == s["name"]) {
+                            if !vj.as_array().unwrap().iter().any(|x| x["name"] == s["name"]) || s["kind"] != "plain" {
                                 continue;
                             }
                             for k in 0..s["args"].as_array().unwrap().len() {
@@ -176,10 +176,17 @@ fn main() {
                                     fail("c10.ret", format!("caller received {:?}, expected {:?}", got, want));
                                 }
                                 let seen = mvs(&rec["seen"]);
-                                if log.len() != 1 || log[0].0 != method {
+                                let nested = rec["mkind"] != "plain";
+                                if log.len() != (if nested { 2 } else { 1 }) || log[0].0 != method {
                                     fail("c10.dispatch", format!("implementation log {:?}", log.iter().map(|x| x.0.clone()).collect::<Vec<_>>()));
                                 } else if log[0].1 != seen {
                                     fail("c10.args", format!("implementation observed {:?}, expected {:?}", log[0].1, seen));
+                                } else if nested {
+                                    // what the caller's nested object / closure was handed by the implementation
+                                    let nseen: MV = serde_json::from_value(rec["nseen"].clone()).unwrap();
+                                    if log[1].0 != format!("cb:{}", method) || log[1].1 != vec![nseen.clone()] {
+                                        fail("c10.nested", format!("the caller's nested object / closure observed {:?}, expected {:?}", log[1], nseen));
+                                    }
                                 }
                             }
                             ("returned", Err(p)) => fail("c10.call.panic", panic_msg(p)),
